@@ -4,3 +4,5 @@ import Ypv.Props.C01
 #print axioms Ypv.C01.exists_iff_select_nonempty
 #print axioms Ypv.C01.optional_eq_required_of_exists
 #print axioms Ypv.C01.select_sorted_nodup
+#print axioms Ypv.C01.keyword_selects_kwSearch
+#print axioms Ypv.C01.keyword_results_at_addresses
